@@ -13,8 +13,8 @@ FACE_ASSUMPTIONS = [
     "Coq 8.16.1 kernel; vm_compute used only for the *_refuted_before_fix witnesses, constant side conditions and non-vacuity Examples",
     "models coq/Face/Stream.v and Lp.v are hand-written from fw/face/stream-transport.go, ndnlp-link-service.go, link-service.go, "
     "fw/dispatch/fw.go and std/engine/face/stream_face.go; tied to the code by this run's differential traces",
-    "constants (MaxNDNPacketSize, receive buffer size, LP header overheads) are regenerated from the tree on every run "
-    "(compiler-evaluated through the verif hook; buffer size from the AST) into coq/Face/GenConsts.v",
+    "constants (MaxNDNPacketSize, receive buffer size, LP header overheads, maxFragCount) are regenerated from the tree on every run "
+    "(compiler-evaluated through the verif hook; buffer size = length of the first Read issued by the running readTlvStream) into coq/Face/GenConsts.v",
     "Go's built-in copy is overlap-safe (language specification), so the receive buffer is modelled by tlvOff and the unread bytes",
     "io.Reader contract: a Read into a non-empty slice returns 0..len(p) bytes; a Read into an empty slice returns (0, nil) (net.Conn behaviour)",
     "extraction: ExtrOcamlBasic only; N, Z, positive, nat stay Coq datatypes",
@@ -45,11 +45,15 @@ def prepare(R, props_pid):
         R.log(log[-1500:])
         return False, None, None
     gen = _load(os.path.join(vlib.VERIF, "translators", "face", "gen_consts.py"), "face_gen_consts")
-    ok, msg = gen.generate(test_exe, R.work)
+    ok, msg, incomplete = gen.generate(test_exe, R.work)
     R.log(msg)
     if not ok:
         R.proof_problems.append(msg)
         return False, test_exe, None
+    if incomplete:
+        # docs/ROBUST_TRANSLATORS.md rule 2: a note, not an alarm; the differential run and the oracle decide
+        R.notes.append("translator: %s not located in the source; reference value kept; the correspondence run decides" % ", ".join(incomplete))
+        R.coverage.setdefault("translation_incomplete", []).extend(incomplete)
     R.prove("Face", props_pid=props_pid)
     ok, runner, log = vlib.extract_build("Face")
     if not ok:
